@@ -289,6 +289,9 @@ def run_tpfa(s, with_mpfa, inverter="python"):
     return case
 
 
+_SHARED_MIXED = {}
+
+
 def run_mixed(s, inputs, scheme):
     """C18: RT0 / MVEM system with Dirichlet data of every field, solved with a sparse direct solver"""
     import porepy as pp
@@ -298,7 +301,14 @@ def run_mixed(s, inputs, scheme):
         return case
     try:
         g = s.g
-        discr = pp.RT0("flow") if scheme == "rt0" else pp.MVEM("flow")
+        # ONE discretisation object per scheme serves all grids one after the other, as the subdomains of a
+        # mixed-dimensional grid are served by one object: nothing it keeps from an earlier grid may leak into the next.
+        # The configuration it served before is recorded with the case (the replay re-executes it first).
+        if scheme not in _SHARED_MIXED:
+            _SHARED_MIXED[scheme] = [pp.RT0("flow") if scheme == "rt0" else pp.MVEM("flow"), None]
+        discr, prev = _SHARED_MIXED[scheme]
+        case["prevtag"] = json.dumps(prev)
+        _SHARED_MIXED[scheme][1] = {k: v for k, v in s.cfg.items()}
         perm, bc = s.perm(), s.bcond()
         data = pp.initialize_data({}, "flow", {"second_order_tensor": perm, "bc": bc,
                                                "bc_values": np.zeros(g.num_faces)})
@@ -359,6 +369,7 @@ def judge(ctx, invariant, groups, subs, cfgs, schemes, tag):
                       "K-orthogonal: " + describe(cfgs[i]), dict(cfg=cfgs[i]))
         elif "clause" in r:
             rec = dict(cfg=cfgs[i], scheme=schemes[i], raised=subs[gi][k]["raised"], observed=_digest(subs[gi][k]),
+                       prev=json.loads(subs[gi][k].get("prevtag") or "null"),
                        singular_faces=singular.get((gi, k), []), degenerate_corners=degenerate.get((gi, k), []))
             ctx.violation(r["clause"], rec, describe(cfgs[i], schemes[i]))
     return outside
